@@ -39,7 +39,8 @@ def register(check, TIERB_NOTE):
           "replace = delete then write, update = write, ordered-list entries appended in arrival order - and encodes them with the harness's own scalar / "
           "RFC 7951 encoders, optionally under a common prefix, with overlapping steps inside one request); the recorded effects are applied to a "
           "path -> value reference model in gNMI order and compared (leaf set and ordered-list order) with the harness's walk of the tree after "
-          "UnmarshalSetRequest / UnmarshalNotifications. Requests with one undecodable update are injected as failing operations: they must be rejected.",
+          "UnmarshalSetRequest / UnmarshalNotifications. Atomic notifications include empty ones (the subtree at the prefix is replaced by nothing). "
+          "Requests with one undecodable update are injected as failing operations: they must be rejected.",
           "DESIGN.md §5 (Tier B, C13)", TIERB_NOTE,
           "deterministic simulation: seeded request histories vs gNMI reference model (model-first generation), failing-request injection, ddmin-minimised replay")
     check("C03", "exploration",
@@ -48,16 +49,19 @@ def register(check, TIERB_NOTE):
           "ygot; the simulator's map-order seam picks it from a fresh seeded permutation stream per step, so the replica sees delivery orders that a real "
           "process produces rarely or never (e.g. a key leaf deleted before its siblings), and only orders Diff itself can emit. After every step: replica == "
           "vi+1 as leaf sets (and ordered-list order for DiffWithAtomic), every update/delete sound and minimal against the harness's own models, Diff(a,a) "
-          "empty, IgnoreAdditions omits exactly the new leaves. Options MapToSinglePath / PreferShadowPath / IgnoreAdditions are swarm-drawn per step.",
+          "empty, IgnoreAdditions omits exactly the new leaves. Options MapToSinglePath / PreferShadowPath / IgnoreAdditions are swarm-drawn per step. In a third "
+          "of the steps the two versions share memory the way path-copied (copy-on-write) trees do - equal subtrees are one object, a leaf-list or binary value "
+          "that grew or shrank at its end starts at its predecessor's address - which changes no content and must change no answer.",
           "DESIGN.md §5 (C03)",
           "Sampling of histories and of delivery orders, not enumeration. Trusted: the harness's walker, its deep clone, the instrumenter's rewrite of map iteration. "
           "Excluded with reason: keyless lists and ordered lists nested in ordered lists (documented as unsupported by ygot).",
           "deterministic simulation: version histories on primary/replica with seeded map-iteration (delivery-order) schedules, leaf-set reference model, ddmin-minimised replay")
     check("C04", "exploration",
-          "Seeded trees (unkeyed lists, binary values, simple and wrapper unions, keyed and ordered lists all populated) are put through DeepCopy, or two "
-          "non-conflicting projections through MergeStructs; then a seeded history of in-place writes hits one side at mutable locations enumerated by "
-          "reflection (pointer targets, map entries, slice elements, bytes of binary values, elements of unkeyed lists, wrapper-union structs, ordered-map "
-          "keys/valueMap) and after every write the deep fingerprint of every other side must be unchanged; DeepCopy's result is also compared with its "
+          "Seeded trees (unkeyed lists, binary values, simple and wrapper unions incl. binary members, keyed and ordered lists all populated, some keyed and "
+          "ordered lists empty but not nil) are put through DeepCopy, or two non-conflicting projections through MergeStructs (plain, MergeEmptyMaps, "
+          "MergeOverwriteExistingFields); then a seeded history of in-place writes hits one side at mutable locations enumerated by "
+          "reflection (pointer targets, map entries deleted and inserted, ordered-map appends, slice elements, bytes of binary values, elements of unkeyed "
+          "lists, wrapper-union structs, ordered-map keys/valueMap) and after every write the deep fingerprint of every other side must be unchanged; DeepCopy's result is also compared with its "
           "input (leaf set, ordered-list order, unkeyed-list length). Both aliasing defects this found are repaired in /repo.",
           "DESIGN.md §5 (Tier B, C04)", TIERB_NOTE,
           "deterministic simulation: seeded mutation histories on copy/original pairs with deep-fingerprint frame oracle, ddmin-minimised replay")
@@ -66,7 +70,9 @@ def register(check, TIERB_NOTE):
           "decides every switch (yield points at every function entry, store and lock operation of ygot's runtime packages and of the generated code; "
           "random-walk preemption with swarm-drawn mean gap, starvation windows, lock-biased preemption right after a mutex is acquired, regexp-cache "
           "evictions as buggify, failing operations mixed in). Workloads: read-only operations on one shared tree (Validate, EmitJSON, Marshal7951, "
-          "ConstructIETFJSON, TogNMINotifications, GetNode, Diff, DiffWithAtomic, DeepCopy, EncodeTypedValue) and Unmarshal / SetNode / UnmarshalSetRequest "
+          "ConstructIETFJSON, TogNMINotifications with shared prefix slices, GetNode with shared path messages, Diff, DiffWithAtomic, DeepCopy, EncodeTypedValue, "
+          "each with its option variants) and Unmarshal (bytes and one shared decoded JSON value) / SetNode (scalar and JSON-IETF payloads at leaf, container "
+          "and list-entry paths) / UnmarshalSetRequest (requests generated as for C13, prefixes with spare capacity, some wire-decoded) "
           "histories into private trees sharing one schema and one pool of input messages. Oracles: (1) the race detector, with the scheduler's hand-offs and - "
           "in race-mode runs - all library-internal synchronisation hidden from it, so that two tasks are ordered only by ygot's own mutexes and the verdict "
           "does not depend on accidental ordering through sync.Pool etc.; reports are attributed to ygot by their innermost non-runtime frame; (2) every task's "
@@ -85,7 +91,10 @@ def register(check, TIERB_NOTE):
           "every map-iteration site yields its keys: canonical (reference), all sites reversed, seeded permutations, the runtime's own order twice, and every "
           "site that sees two or more keys reversed alone (quick: a sample of 10 per combination; thorough: all of them, i.e. an exhaustive single-site "
           "sweep). Oracle: all output files byte-identical to the reference. A violation is delta-debugged to the smallest set of `range` statements whose "
-          "order matters.",
+          "order matters. Process state is the second schedule dimension: the generators are also run as libraries in seeded sequences of 2-4 generations "
+          "inside one process, mixing configuration variants (package names and suffixes, compression, union style, split-by-module, nested messages) "
+          "and map orders, and every generation must equal what the same configuration produces as the only generation of a fresh process; a failing "
+          "sequence is shortened while the same class of deviation persists. Every deviation is re-executed with the identical plan before it is reported.",
           "DESIGN.md §5 (C25)",
           "Sampling of permutations and of the flag lattice; the only sources of nondeterminism in these packages are map iteration order and process state "
           "(no goroutines, no clock), both of which the simulator controls. Trusted: the instrumenter's rewrite (every order it produces is one the Go "
